@@ -76,7 +76,7 @@ def _run(ctx, thorough):
     # ---- 2. deeper behaviours by simulation (small scenario, 9 calls)
     c_sim = os.path.join(w, "cases-sim.ndjson")
     sim = ctx.tlc("MC_MsgBuilder", "Gen_MsgBuilder_sim", workers=4, label="gen-sim", coverage=False,
-                  simulate=(600 if thorough else 120), depth=12, cases_to=c_sim, count=False)
+                  simulate=(1500 if thorough else 120), depth=12, cases_to=c_sim, count=False)
     ctx.require_ok(sim, "Gen_MsgBuilder simulation")
 
     # ---- 3. what today's code does where the deviation applies: the same
@@ -205,7 +205,7 @@ def _window(trace_path, rej):
 
 def replay(ctx, doc):
     """bin/check C02 --replay <file>: re-run one failing behaviour / recorded run"""
-    case = doc.get("case") or {}
+    case = doc if ("in" in doc or "trace" in doc) else (doc.get("case") or {})
     ctx.build("replay_builder", "record_builder")
     if "in" in case:
         p = os.path.join(ctx.work, "one.ndjson")
